@@ -8,10 +8,13 @@ import lib_fsm
 import vlib
 
 AREA = "Fsm"
-THEOREMS = [("Arc.Fsm.PropsC22", "C22_restore_snapshot_guarded"),
+THEOREMS = [("Arc.Fsm.PropsC22", "C22_restore_snapshot"),
+            ("Arc.Fsm.PropsC22", "C22_prefix_replay"),
+            ("Arc.Fsm.PropsC22", "C22_indexes_agree"),
+            ("Arc.Fsm.PropsC22", "C22_batch_atomic"),
+            ("Arc.Fsm.PropsC22", "C22_restore_snapshot_guarded"),
             ("Arc.Fsm.PropsC22", "C22_restore_snapshot_iff"),
             ("Arc.Fsm.PropsC22", "C22_prefix_replay_guarded"),
-            ("Arc.Fsm.PropsC22", "C22_batch_atomic"),
             ("Arc.Fsm.PropsC22", "C22_indexes_agree_guarded"),
             ("Arc.Fsm.PropsC22", "C22_auth_indexes_agree"),
             ("Arc.Fsm.PropsC22", "C22_tokens_valid_guarded"),
